@@ -31,7 +31,7 @@ func c12Gen(r *RNG, id string) *Case {
 		return reordGen(r, id)
 	}
 	kinds := []string{"snps", "snps-agg", "variants", "variants-agg", "variants-gff-shared", "toma", "topa-dir", "topa-dir", "topa-dir", "topa-stdout", "samvariants", "samvariants-agg", "samvariants-twins", "samvariants-twins", "samvariants-twins", "topa-stdout", "topa-stdout",
-		"closest", "closest-n", "list", "topranking", "topranking-push", "topranking-csv", "topranking-ignore"}
+		"closest", "closest-n", "list", "topranking", "topranking-push", "topranking-push", "topranking-push", "topranking-csv", "topranking-ignore"}
 	kind := kinds[r.Intn(len(kinds))]
 	c := NewCase("REL", id)
 	c.Set("rel", "allsame").Set("relkind", "c12").Set("cmd", kind)
@@ -370,6 +370,25 @@ func execC12(c *Case) {
 		tc.SetInt("distall", 0).SetInt("distup", 0).SetInt("distdown", 0).SetInt("distside", 0).SetInt("distpush", 0)
 		if kind == "topranking-push" {
 			tc.SetInt("sizetotal", 0).SetInt("distpush", 2)
+			if r.Chance(2, 3) {
+				// a query equal to the reference and 30-44 descendants, one or two SNPs away, many of them tied on
+				// (distance, ambiguity): more candidates in one bin than any small-slice special case of a sort, two
+				// distances in the push map (whatever walks that map must not decide the order)
+				ref := tc.Get("ref")
+				w := len(ref)
+				var tn, ts []string
+				for i, n := 0, r.Range(30, 44); i < n; i++ {
+					b := []byte(ref)
+					for k := 1 + i%2; k > 0; k-- {
+						j := r.Intn(w)
+						b[j] = r.Pick(strings.ReplaceAll(symACGT, string(ref[j]), ""))
+					}
+					tn = append(tn, fmt.Sprintf("D%02d", i))
+					ts = append(ts, string(b))
+				}
+				tc.Set("qnames", "Qroot").Set("qseqs", ref).Set("tnames", strings.Join(tn, ",")).Set("tseqs", strings.Join(ts, ","))
+				c.Tag("push-bin-of-dozens-of-tied-descendants")
+			}
 		}
 		tc.Set("via", "")
 		if kind == "topranking-ignore" {
